@@ -227,6 +227,12 @@ impl Link {
         self.ops.push(Opcode::Jump(0))
     }
 
+    /// True when a line or label resolves to the address just past the last opcode.
+    pub fn has_symbol_at_end(&self) -> bool {
+        let end = self.ops.len();
+        self.symbols.values().any(|(op_addr, _)| *op_addr == end)
+    }
+
     pub fn push_symbol(&mut self, sym: Symbol) {
         if self
             .symbols
